@@ -345,6 +345,9 @@ pub enum COp {
     BuilderNew { m: u8, sig: u32 },
     /// ambient: move the process-global arena counter
     Burn { n: u32 },
+    /// injected fault: use the `nth` id issued by module `from` on module `to` (a different module):
+    /// it must be refused, never resolve to one of `to`'s items
+    Foreign { from: u8, to: u8, coll: CollKind, nth: u32 },
 }
 
 #[derive(Serialize, Deserialize, Clone, Debug, Default)]
